@@ -20,6 +20,9 @@ SCENARIOS_QUICK = [
     ('R_descr_dA', 'W_add_dA', 'post:W_del_dA'), ('R_descr_dA', 'W_del_dA', 'pre:W_add_dA'),
     # the waveform path: real-time sample transactions (written many times per second) against GetMdState
     ('R_state_rt', 'W_rt'), ('R_state_all', 'W_rt'),
+    # the application keeps a context entity, refreshes it after a new state was committed and prepares changes on it
+    # without committing them: Get answers and the MDIB of that version stay what was committed
+    ('R_ctx_all', 'A_entity_touch', 'pre:W_ctx_newpat'), ('R_mdib', 'A_entity_touch', 'pre:W_ctx_newpat'),
 ]
 SCENARIOS_THOROUGH = SCENARIOS_QUICK + [
     ('R_state_m1', 'W_metric_m1', 'W_comp_vmd'), ('R_state_all', 'R_descr', 'W_descr_m1'),
@@ -52,7 +55,7 @@ def run_scenarios(run, scenarios, limit_per_scenario, family, prefix='c07', lab_
         run.note('thread_programs', {n: [f"{e['op']}:{e['lock']}" for e in p] for n, p in programs.items()})
         for si, sc in enumerate(scenarios):
             progs = {i + 1: programs[n] for i, n in enumerate(sc)}
-            readers = [i + 1 for i, n in enumerate(sc) if n.startswith(('R_', 'O_', 'P_'))]   # threads whose code after a release matters
+            readers = [i + 1 for i, n in enumerate(sc) if n.startswith(('R_', 'O_', 'P_', 'A_'))]   # threads whose code after a release matters
             total_events = sum(len(p) for p in progs.values())
             exhaustive = total_events <= 34 and len(sc) <= 2
             scheds = enumerate_schedules(run, f'{prefix}_{si}', progs, readers,
@@ -101,11 +104,11 @@ def run_scenarios(run, scenarios, limit_per_scenario, family, prefix='c07', lab_
 
 
 def _strip(rec):
-    return {k: rec[k] for k in ('reads', 'phist', 'wire', 'errors', 'txids', 'txid0', 'mver0', 'mver_end', 'nwv', 'ctxhist')}
+    return {k: rec[k] for k in ('reads', 'phist', 'wire', 'errors', 'txids', 'txid0', 'mver0', 'mver_end', 'nwv', 'ctxhist', 'conflicts')}
 
 
 FAMILY = {'label_is_a_version_that_existed', 'snapshot_content', 'snapshot_selection', 'each_at_most_once',
-          'request_answered'}
+          'request_answered', 'mdib_changes_only_with_a_new_version'}
 
 
 def check(run, replay_path=None):
